@@ -48,6 +48,21 @@ type c10op struct {
 	op  base.Operation
 }
 
+// c10noisy delays PreProcess of some operations (the sequential phase of the proposal processor)
+type c10noisy struct {
+	base.OperationProcessor
+	seed uint64
+}
+
+func (p c10noisy) PreProcess(ctx context.Context, op base.Operation, gs base.GetStateFunc) (context.Context, base.OperationProcessReasonError, error) {
+	b := op.Hash().Bytes()
+	y := (uint64(b[2])<<8 | uint64(b[3])) * (p.seed*40503 + 7)
+	if y&1 == 0 {
+		time.Sleep(time.Duration((y>>5)%1200) * time.Microsecond)
+	}
+	return p.OperationProcessor.PreProcess(ctx, op, gs)
+}
+
 func runC10(c *Ctx) error {
 	env, err := c19newEnv()
 	if err != nil {
@@ -133,6 +148,7 @@ func runC10(c *Ctx) error {
 		}
 		outsider := w.party()
 		var ops []c10op
+		twoPolicies := false
 		if manyJoins {
 			for _, ci := range c.Perm(nc) {
 				cand := cands[ci]
@@ -238,6 +254,45 @@ func runC10(c *Ctx) error {
 				ops = append(ops, c10op{fmt.Sprintf("p:%d", np.MaxOperationsInProposal()), op})
 			}
 		}
+		// one member leaves twice in this block: by its own disjoin operation and by an expel of the other members
+		sameNodeTwice := false
+		if nm >= 3 && c.Chance(1, 4) {
+			mi := c.Intn(nm)
+			node := members[mi]
+			dop := isaacoperation.NewSuffrageDisjoin(isaacoperation.NewSuffrageDisjoinFact(util.UUID().Bytes(), node.addr, base.Height(int64(memberStart[mi]))))
+			_ = dop.NodeSign(node.priv, hNetworkID, node.addr)
+			xop := isaac.NewSuffrageExpelOperation(isaac.NewSuffrageExpelFact(node.addr, base.Height(int64(height-1)), base.Height(int64(height+1)), "no response"))
+			for _, m := range members {
+				if m.id != node.id {
+					_ = xop.NodeSign(m.priv, hNetworkID, m.addr)
+				}
+			}
+			at := c.Intn(len(ops) + 1)
+			rest := append([]c10op{}, ops[at:]...)
+			ops = append(append(ops[:at:at], c10op{fmt.Sprintf("d:%d:%d:%d", node.id, memberStart[mi], node.key), dop}), rest...)
+			ops = append(ops, c10op{fmt.Sprintf("x:%d:%d:%d", node.id, height-1, height+1), xop})
+			sameNodeTwice = true
+		}
+		// two network-policy operations, the first one refused by the process constraint of the parallel phase
+		if c.Chance(1, 4) {
+			var pair []c10op
+			for _, v := range []int{3 * (34 + c.Intn(300)), 3*(34+c.Intn(300)) + 1 + c.Intn(2)} {
+				np := isaac.DefaultNetworkPolicy()
+				np.SetMaxOperationsInProposal(uint64(v))
+				op := isaacoperation.NewNetworkPolicy(isaacoperation.NewNetworkPolicyFact(util.UUID().Bytes(), np))
+				for _, m := range members {
+					_ = op.NodeSign(m.priv, hNetworkID, m.addr)
+				}
+				pair = append(pair, c10op{fmt.Sprintf("p:%d", v), op})
+			}
+			at := c.Intn(len(ops) + 1)
+			rest := append([]c10op{}, ops[at:]...)
+			ops = append(append(ops[:at:at], pair[0]), rest...)
+			at2 := at + 1 + c.Intn(len(ops)-at)
+			rest = append([]c10op{}, ops[at2:]...)
+			ops = append(append(ops[:at2:at2], pair[1]), rest...)
+			twoPolicies = true
+		}
 		if reRegister {
 			who := cands[0]
 			op := isaacoperation.NewSuffrageCandidate(isaacoperation.NewSuffrageCandidateFact(util.UUID().Bytes(), who.addr, who.priv.Publickey()))
@@ -301,9 +356,23 @@ func runC10(c *Ctx) error {
 				return func(_ context.Context, op base.Operation, _ base.GetStateFunc) (base.OperationProcessReasonError, error) {
 					b := op.Hash().Bytes()
 					x := (uint64(b[0])<<8 | uint64(b[1])) * (seed*2654435761 + 1)
-					time.Sleep(time.Duration((x>>7)%1500) * time.Microsecond)
+					if x&3 != 0 {
+						time.Sleep(time.Duration((x>>7)%1500) * time.Microsecond)
+					}
+					// the hook is also what it is in a node, a constraint: some network-policy operations are refused
+					// here, in the parallel phase, after they went through PreProcess
+					if np, ok := op.Fact().(isaacoperation.NetworkPolicyFact); ok && np.Policy().MaxOperationsInProposal()%3 == 0 {
+						return base.NewBaseOperationProcessReason("refused by the process constraint"), nil
+					}
 					return nil, nil
 				}, nil
+			}
+			// the sequential phase is stirred too: PreProcess of some operations starts late
+			noisy := func(p base.OperationProcessor, err error) (base.OperationProcessor, error) {
+				if err != nil || p == nil {
+					return p, err
+				}
+				return c10noisy{OperationProcessor: p, seed: seed}, nil
 			}
 			// the writer's save worker keeps writing states after Process has returned: a database is closed only
 			// two seconds after its run, never under the worker
@@ -327,15 +396,15 @@ func runC10(c *Ctx) error {
 			args.NewOperationProcessorFunc = func(h base.Height, ht hint.Hint, gs base.GetStateFunc) (base.OperationProcessor, error) {
 				switch ht.Type() {
 				case isaacoperation.SuffrageCandidateHint.Type():
-					return isaacoperation.NewSuffrageCandidateProcessor(h, gs, nil, delay, policy.SuffrageCandidateLifespan())
+					return noisy(isaacoperation.NewSuffrageCandidateProcessor(h, gs, nil, delay, policy.SuffrageCandidateLifespan()))
 				case isaacoperation.SuffrageJoinHint.Type():
-					return isaacoperation.NewSuffrageJoinProcessor(h, th, gs, nil, delay)
+					return noisy(isaacoperation.NewSuffrageJoinProcessor(h, th, gs, nil, delay))
 				case isaac.SuffrageExpelOperationHint.Type():
-					return isaacoperation.NewSuffrageExpelProcessor(h, gs, nil, delay)
+					return noisy(isaacoperation.NewSuffrageExpelProcessor(h, gs, nil, delay))
 				case isaacoperation.SuffrageDisjoinHint.Type():
-					return isaacoperation.NewSuffrageDisjoinProcessor(h, gs, nil, delay)
+					return noisy(isaacoperation.NewSuffrageDisjoinProcessor(h, gs, nil, delay))
 				case isaacoperation.NetworkPolicyHint.Type():
-					return isaacoperation.NewNetworkPolicyProcessor(h, th, gs, nil, delay)
+					return noisy(isaacoperation.NewNetworkPolicyProcessor(h, th, gs, nil, delay))
 				}
 				return nil, nil
 			}
@@ -447,8 +516,29 @@ func runC10(c *Ctx) error {
 		if reRegister {
 			c.Count("directed", "expired-candidate-registers-again")
 		}
+		if sameNodeTwice {
+			c.Count("directed", "member-disjoins-and-is-expelled")
+		}
+		if twoPolicies {
+			c.Count("directed", "two-policies-first-refused-by-constraint")
+		}
 		_ = same
-		c.Case(head+" "+strings.Join(toks, " "), suf)
+		// doProcessOperation records no result for an operation that Process refuses with a reason; fixedtree.Writer
+		// drops the slots nobody wrote, so a block in which every operation is refused that way has an empty operations
+		// tree and Manifest fails ("empty ndoes"), the same way under every schedule. The suffrage model has no
+		// such outcome: these blocks are compared across schedules only.
+		allRefused := true
+		for _, t := range toks {
+			var v int
+			if n, _ := fmt.Sscanf(t, "p:%d", &v); n != 1 || v%3 != 0 {
+				allRefused = false
+			}
+		}
+		if allRefused && suf == "error" && strings.Contains(first, "empty ndoes") {
+			c.Count("directed", "every-operation-refused-in-process-phase")
+		} else {
+			c.Case(head+" "+strings.Join(toks, " "), suf)
+		}
 		c.Nontrivial(head + strings.Join(toks, " "))
 		if i%20 == 0 {
 			c.Sample(map[string]interface{}{"block": head, "ops": toks, "result": first, "suffrage": suf})
